@@ -51,3 +51,17 @@ Print Assumptions C12_rights_monotone.
 Print Assumptions C12_generated_moves_have_shape.
 Print Assumptions C12_InvC_reachable.
 Print Assumptions C12_Repr_visited.
+
+(* ---- closed (Closed.v): from any position passing the executable invariant check ---- *)
+From ChessV Require Closed.
+
+Theorem C12_closed_every_visited_state : forall T rook_t bishop_t b0 b,
+  invb rook_t bishop_t b0 = true -> visited T rook_t bishop_t b0 (turn b0) b -> Repr b.
+Proof. exact Closed.C12_closed. Qed.
+
+Theorem C12_closed_every_visited_state_bool : forall T rook_t bishop_t b0 b,
+  invb rook_t bishop_t b0 = true -> visited T rook_t bishop_t b0 (turn b0) b -> repr_ok b = true.
+Proof. exact Closed.C12_closed_bool. Qed.
+
+Print Assumptions C12_closed_every_visited_state.
+Print Assumptions C12_closed_every_visited_state_bool.
